@@ -11,9 +11,11 @@ the roles of the indices exchanged):
                      them from the supercell length: exp(i k m L) and its conjugate —, metric scales tiled
   tileMatX n mt      tiled materials
 
-Driver ops: those of `YeeIO` (`fwd r|c` on the base cell and on the supercell container).
+Driver ops: those of `YeeIO` (`fwd r|c` on the base cell and on the supercell container) and `afwd` of `YeeAnisoIO`
+(any material tier, used for the full-tensor cases; tiling operations for that tier in `FdtdxModel/C09Aniso.lean`).
 -/
 import FdtdxModel.YeeIO
+import FdtdxModel.YeeAnisoIO
 namespace Fdtdx.C09
 open Fdtdx.Yee
 
@@ -40,6 +42,8 @@ def tileMatX (n : Nat) (mt : Mat α) : Mat α :=
 
 end
 
-def handle : List String → String := YeeIO.handleYee
+def handle : List String → String
+  | "afwd" :: rest => YeeAnisoIO.handleAniso ("afwd" :: rest)
+  | l => YeeIO.handleYee l
 
 end Fdtdx.C09
